@@ -17,6 +17,7 @@ pub fn spec() -> PropSpec {
         assumptions: &["reference CRC-24 = bit-serial division by 0x1FFF409 (checked against published intact frames)", "the HashMap cannot hold two rows under one key, so 'two rows for one address' is checked as row.icao == key for every row"],
         workers: 16,
         also_nochk: false,
+        fuzz_target: None,
         quick_budget_s: 900,
         thorough_budget_s: 3600,
         min_nontrivial_quick: 100_000,
